@@ -114,7 +114,9 @@ package route
 //@   top-ensures (err == nil) == sdSwapped
 
 // Run: once the engine was marked running, the status is 'closed' when Run returns - unconditionally (a Run that
-// fails to listen leaves no 'running' status behind for a later Shutdown to act on).
+// fails to listen leaves no 'running' status behind for a later Shutdown to act on). The status becomes 'running' only
+// after the OnRun hooks: while a hook runs nothing listens, and a Shutdown in that window must still be refused as
+// "not running" instead of succeeding and leaving a server that starts to accept afterwards.
 //@ ghost var rnMarked bool
 //@ ghost var rnClosed bool
 //@ func Engine.Run(engine) err
@@ -129,6 +131,7 @@ package route
 //@   ghostset after StoreUint32: rnClosed = true
 //@   forbid CompareAndSwapUint32!
 //@   assert before listenAndServe: rnMarked
+//@   assert before CtxErrCallback: !rnMarked
 //@   top-ensures rnMarked ==> rnClosed
 
 //@ func Engine.IsRunning(engine) r
